@@ -8,7 +8,7 @@
 From Coq Require Import ZArith NArith List Lia.
 From Arsenal Require Import Util Bits Gran Tlsf TlsfGeom TlsfInv1 TlsfStep TlsfProps SizeClass TlsfInv2 TlsfStep2 TlsfProps2 GranInv GranTlsf.
 From Arsenal Require Linear LinearInv LinearAlloc LinearFree LinearStep LinearSwap LinearVisit LinearProps.
-From Arsenal Require VamDev VamBlockList Vam VamInv VamInvThm VamAcctThm VamBal VamBalThm VamNpThm VamFailProps.
+From Arsenal Require VamDev VamBlockList Vam VamInv VamInvMeta VamInvThm VamAcctThm VamBal VamBalThm VamNpThm VamFailProps VamRefused.
 Import ListNotations.
 Open Scope Z_scope.
 
@@ -93,4 +93,27 @@ Theorem C13_allocator_never_panics : forall c v G o f v' r calls,
   step c v o f = (v', r, calls) -> r <> RPanic /\ r <> RStuck.
 Proof. intros c v G o f v' r calls Ha. exact (step_never_panics c Ha v G o f v' r calls). Qed.
 Print Assumptions C13_allocator_never_panics.
+(* A refused request changes nothing the caller can observe: for every allocation-type operation (AllocateMemory,
+   AllocateMemorySlice, AllocateMemoryFor*, CreateBuffer, CreateImage, CreatePool) that returns an error - for any
+   reason, at any fault position - the resulting state is again reachable, the set of allocated Allocation objects,
+   the pools and their configuration, the dedicated lists, the per-heap allocation counters and the set of device
+   memory objects holding a live allocation (with their types) are exactly as before; the only device memory
+   that can differ is EMPTY blocks (a block created for the request and kept as a spare, or a spare released by an
+   unwinding multi-allocation) - with C10_allocator_same_regions: every live region is where it was. *)
+Theorem C13_allocator_refused_changes_nothing : forall c v G o f v' code calls,
+  cfg_acct c -> reachB c v G -> op_ok v o -> op_dom o -> VamRefused.refused_op o ->
+  step c v o f = (v', RErr code, calls) ->
+  reachB c v' G /\ VamFailProps.same_slots v v' /\ VamRefused.pools_same v v' /\
+  (forall lr s, List.In s (get_dedlist v' lr) <-> List.In s (get_dedlist v lr)) /\
+  (forall h, alloc_count c v' h = alloc_count c v h /\ alloc_bytes c v' h = alloc_bytes c v h /\
+             Budget.ac (Budget.heaps (m_bud (v_m v')) h) = Budget.ac (Budget.heaps (m_bud (v_m v)) h) /\
+             Budget.ab (Budget.heaps (m_bud (v_m v')) h) = Budget.ab (Budget.heaps (m_bud (v_m v)) h)) /\
+  (forall id, VamRefused.mem_used v' id <-> VamRefused.mem_used v id) /\
+  (forall id, VamRefused.mem_used v id ->
+     exists d d', find_mem (m_mems (v_m v)) id = Some d /\ find_mem (m_mems (v_m v')) id = Some d' /\ dm_type d' = dm_type d) /\
+  (forall d, List.In d (m_mems (v_m v')) -> ~ VamRefused.mem_used v' (dm_id d) ->
+     exists lr l b, get_blist v' lr = Some l /\ List.In b (bl_blocks l) /\ bk_mem b = dm_id d /\
+                    VamInvMeta.meta_live (bk_meta b) = nil).
+Proof. intros c v G o f v' code calls Ha. exact (VamRefused.refused_changes_nothing c Ha v G o f v' code calls). Qed.
+Print Assumptions C13_allocator_refused_changes_nothing.
 End Allocator.
